@@ -426,6 +426,313 @@ theorem read_back (m : Memory) (ws : List (Region × Memory))
     · simp only [writeAll]
       exact ih _ hp.2 w hw x hx
 
+/-! ### The addresses finally printed: operands through the pipeline
+
+`locals_ok` speaks about the regions `AllocLocal` returned.  What the property needs is that the *compiled and
+printed* function still touches exactly those bytes: below, the emitted stack operands are part of the model,
+`ensureBPFn` is the pipeline step on frame and operands, and the acceptor judges the printed operands. -/
+
+/-- The observed operand addresses byte `delta` of the region handed out for its local. -/
+def AddrOK (regions : List Region) (s : Seen) : Prop :=
+  ∃ g, regions[s.ref.loc]? = some g ∧ s.disp = g.off + s.ref.delta
+
+theorem addrOKB_iff (regions : List Region) (s : Seen) : addrOKB regions s = true ↔ AddrOK regions s := by
+  unfold addrOKB AddrOK
+  cases h : regions[s.ref.loc]? with
+  | none => simp
+  | some g => simp
+
+/-- **The property on the finally printed function**: every printed stack operand addresses the region handed
+out for it, and the regions handed out satisfy `LocalsOK` against the frame the assembler allocates for the
+printed TEXT line. -/
+def FinalOK (regions : List Region) (forced : Option Region) (seen : List Seen) (text : List Char) : Prop :=
+  (∀ s ∈ seen, AddrOK regions s) ∧ ∃ fr, asmTextFrame text = some fr ∧ LocalsOK (regions ++ forced.toList) fr
+
+/-- The acceptor of the `accept-final` stream decides exactly `FinalOK`. -/
+theorem acceptFinal_iff (regions : List Region) (forced : Option Region) (seen : List Seen) (text : List Char) :
+    acceptFinal regions forced seen text = true ↔ FinalOK regions forced seen text := by
+  unfold acceptFinal FinalOK
+  simp only [Bool.and_eq_true, List.all_eq_true, addrOKB_iff]
+  constructor
+  · rintro ⟨a, b⟩; exact ⟨a, acceptLocalsText_sound _ _ b⟩
+  · rintro ⟨a, fr, hfr, hok⟩
+    refine ⟨a, ?_⟩
+    unfold acceptLocalsText
+    rw [hfr]
+    exact (acceptLocals_iff _ _).mpr hok
+
+/-- An operand that was moved by a non-zero amount is rejected, whatever else is printed (the class of the
+seeded change "shift every SP-relative operand up by the BP word"). -/
+theorem shifted_operand_rejected (regions : List Region) (s : Seen) (g : Region) (k : Int)
+    (hg : regions[s.ref.loc]? = some g) (hk : k ≠ 0) (hs : s.disp = g.off + s.ref.delta + k)
+    (forced : Option Region) (rest : List Seen) (text : List Char) :
+    acceptFinal regions forced (s :: rest) text = false := by
+  cases h : acceptFinal regions forced (s :: rest) text with
+  | false => rfl
+  | true =>
+    obtain ⟨ha, _⟩ := (acceptFinal_iff _ _ _ _).mp h
+    obtain ⟨g', hg', hd⟩ := ha s List.mem_cons_self
+    rw [hg] at hg'; cases hg'
+    omega
+
+/-- Bytes accessed through an in-bounds operand are bytes of the region handed out. -/
+theorem access_in_region (regions : List Region) (s : Seen) (g : Region)
+    (hg : regions[s.ref.loc]? = some g) (ha : AddrOK regions s)
+    (h0 : 0 ≤ s.ref.delta) (h1 : s.ref.delta + s.ref.width ≤ g.size) :
+    ∀ x, (⟨s.disp, s.ref.width⟩ : Region).Mem x → g.Mem x := by
+  obtain ⟨g', hg', hd⟩ := ha
+  rw [hg] at hg'; cases hg'
+  intro x hx
+  simp only [Region.Mem] at hx ⊢
+  omega
+
+theorem disjoint_symm {r s : Region} (h : Disjoint r s) : Disjoint s r :=
+  fun x hx => h x ⟨hx.2, hx.1⟩
+
+theorem pairwise_getElem? (rs : List Region) (hp : rs.Pairwise Disjoint) (i j : Nat) (a b : Region)
+    (hij : i ≠ j) (ha : rs[i]? = some a) (hb : rs[j]? = some b) : Disjoint a b := by
+  obtain ⟨hi, rfl⟩ := List.getElem?_eq_some_iff.mp ha
+  obtain ⟨hj, rfl⟩ := List.getElem?_eq_some_iff.mp hb
+  rcases Nat.lt_or_gt_of_ne hij with h | h
+  · exact (List.pairwise_iff_getElem.mp hp) i j hi hj h
+  · exact disjoint_symm ((List.pairwise_iff_getElem.mp hp) j i hj hi h)
+
+/-- **C16 on the printed function (what `accept-final` establishes).**  When the acceptor accepts, every byte
+accessed through an in-bounds printed operand is inside the frame the assembler allocates, is not a byte of the
+BP save slot, and two in-bounds operands of different locals share no byte. -/
+theorem final_access_ok (regions : List Region) (forced : Option Region) (seen : List Seen) (text : List Char)
+    (h : acceptFinal regions forced seen text = true) :
+    ∃ fr, asmTextFrame text = some fr ∧
+      (∀ s ∈ seen, ∀ g, regions[s.ref.loc]? = some g → 0 ≤ s.ref.delta → s.ref.delta + s.ref.width ≤ g.size →
+        ∀ x, (⟨s.disp, s.ref.width⟩ : Region).Mem x → (0 ≤ x ∧ x < fr) ∧ ¬ (bpSlot fr).Mem x) ∧
+      (∀ s ∈ seen, ∀ t ∈ seen, ∀ g k, regions[s.ref.loc]? = some g → regions[t.ref.loc]? = some k →
+        s.ref.loc ≠ t.ref.loc →
+        0 ≤ s.ref.delta → s.ref.delta + s.ref.width ≤ g.size →
+        0 ≤ t.ref.delta → t.ref.delta + t.ref.width ≤ k.size →
+        Disjoint ⟨s.disp, s.ref.width⟩ ⟨t.disp, t.ref.width⟩) := by
+  obtain ⟨ha, fr, hfr, hin, hpw, hbp⟩ := (acceptFinal_iff _ _ _ _).mp h
+  refine ⟨fr, hfr, ?_, ?_⟩
+  · intro s hs g hg h0 h1 x hx
+    have hgx := access_in_region regions s g hg (ha s hs) h0 h1 x hx
+    have hmem : g ∈ regions ++ forced.toList :=
+      List.mem_append_left _ (List.mem_of_getElem? hg)
+    exact ⟨hin g hmem x hgx, fun hb => hbp g hmem x ⟨hgx, hb⟩⟩
+  · intro s hs t ht g k hg hk hne h0 h1 h2 h3 x hx
+    have hgx := access_in_region regions s g hg (ha s hs) h0 h1 x hx.1
+    have hkx := access_in_region regions t k hk (ha t ht) h2 h3 x hx.2
+    have hpr : regions.Pairwise Disjoint := (List.pairwise_append.mp hpw).1
+    exact pairwise_getElem? regions hpr _ _ g k hne hg hk x ⟨hgx, hkx⟩
+
+/-! #### The model of the pipeline keeps every operand on its region -/
+
+/-- Invariant on the operands emitted so far: each carries the address of byte `delta` of its local. -/
+def RefsOK (f : FnP) : Prop :=
+  ∀ p ∈ f.mems, ∃ g, f.fn.regions[p.1.loc]? = some g ∧ p.2 = g.off + p.1.delta
+
+/-- An operand refers only to a local that has been allocated before (`n` locals exist at the start). -/
+def WellScoped : Nat → List POp → Prop
+  | _, [] => True
+  | n, .alloc _ :: ops => WellScoped (n + 1) ops
+  | n, .instr _ rs :: ops => (∀ r ∈ rs, r.loc < n) ∧ WellScoped n ops
+
+theorem refsOK_init : RefsOK {} := by intro p hp; cases hp
+
+theorem refsOK_step (f : FnP) (h : RefsOK f) (op : POp) (hs : WellScoped f.fn.regions.length [op]) :
+    RefsOK (stepP f op) := by
+  cases op with
+  | alloc s =>
+    intro p hp
+    obtain ⟨g, hg, hd⟩ := h p hp
+    refine ⟨g, ?_, hd⟩
+    have hlt : p.1.loc < f.fn.regions.length := (List.getElem?_eq_some_iff.mp hg).1
+    simp only [stepP, allocLocal]
+    rw [List.getElem?_append_left hlt]; exact hg
+  | instr w rs =>
+    intro p hp
+    simp only [stepP, List.mem_append, List.mem_map] at hp
+    rcases hp with hp | ⟨r, hr, rfl⟩
+    · obtain ⟨g, hg, hd⟩ := h p hp
+      exact ⟨g, by simpa [stepP, step] using hg, hd⟩
+    · have hlt : r.loc < f.fn.regions.length := hs.1 r hr
+      refine ⟨f.fn.regions[r.loc], ?_, ?_⟩
+      · simp [stepP, step, List.getElem?_eq_getElem hlt]
+      · simp [refDisp, List.getElem?_eq_getElem hlt]
+
+theorem stepP_length (f : FnP) (op : POp) :
+    (stepP f op).fn.regions.length = f.fn.regions.length + (match op with | .alloc _ => 1 | .instr _ _ => 0) := by
+  cases op <;> simp [stepP, allocLocal, step]
+
+theorem refsOK_run (f : FnP) (h : RefsOK f) (ops : List POp) (hs : WellScoped f.fn.regions.length ops) :
+    RefsOK (runP f ops) := by
+  induction ops generalizing f with
+  | nil => exact h
+  | cons op ops ih =>
+    simp only [runP, List.foldl_cons]
+    cases op with
+    | alloc s =>
+      apply ih (stepP f (.alloc s)) (refsOK_step f h _ (by simp [WellScoped]))
+      have := stepP_length f (.alloc s)
+      simp only at this
+      rw [this]; exact hs
+    | instr w rs =>
+      apply ih (stepP f (.instr w rs)) (refsOK_step f h _ ⟨hs.1, trivial⟩)
+      have := stepP_length f (.instr w rs)
+      simp only [Nat.add_zero] at this
+      rw [this]; exact hs.2
+
+/-- The frame part of the operand-carrying run is the plain run. -/
+theorem runP_fn (f : FnP) (ops : List POp) : (runP f ops).fn = run f.fn (ops.map POp.toOp) := by
+  induction ops generalizing f with
+  | nil => rfl
+  | cons op ops ih =>
+    simp only [runP, run, List.foldl_cons, List.map_cons] at ih ⊢
+    rw [ih]
+    cases op <;> rfl
+
+/-- The invariant of the frame gives the property for whatever `ensureBP` returns. -/
+theorem ensureBP_localsOK (f : Fn) (hinv : Inv f) (noframe : Bool) (c : Compiled)
+    (hc : ensureBP f noframe = some c) : LocalsOK (c.regions ++ c.forced.toList) c.frame := by
+  obtain ⟨hreg, hcase⟩ := ensureBP_some f noframe c hc
+  rw [hreg]
+  rcases hcase with ⟨hfo, hfr⟩ | ⟨_, h0, hfo, hfr⟩
+  · rw [hfo, hfr]
+    simp only [Option.toList, List.append_nil]
+    exact localsOK_of_inv _ _ hinv.bounds hinv.pairwise
+  · rw [hfo, hfr]
+    apply localsOK_of_inv
+    · intro r hr
+      simp only [Option.toList, List.mem_append, List.mem_singleton] at hr
+      rcases hr with hr | hr
+      · have := hinv.bounds r hr; omega
+      · subst hr; simp only; omega
+    · simp only [Option.toList]
+      rw [List.pairwise_append]
+      refine ⟨hinv.pairwise, by simp, ?_⟩
+      intro a ha b hb
+      simp only [List.mem_singleton] at hb
+      subst hb
+      have := hinv.bounds a ha
+      intro x hx
+      simp only [Region.Mem] at hx
+      omega
+
+/-- **C16 (pipeline step).**  `EnsureBasePointerCalleeSaved`, for every function state that satisfies the
+allocation invariant and whose operands sit on their regions: the operands are unchanged, every operand still
+addresses the region handed out for its local, and the regions (with the forced local, if one is added) satisfy
+`LocalsOK` against the final frame. -/
+theorem ensureBPFn_preserves (f : FnP) (hinv : Inv f.fn) (hrefs : RefsOK f) (noframe : Bool) (c : CompiledP)
+    (hc : ensureBPFn f noframe = some c) :
+    c.mems = f.mems ∧ c.frame.regions = f.fn.regions ∧
+    (∀ p ∈ c.mems, AddrOK c.frame.regions ⟨p.1, p.2⟩) ∧
+    LocalsOK (c.frame.regions ++ c.frame.forced.toList) c.frame.frame := by
+  unfold ensureBPFn at hc
+  cases hb : ensureBP f.fn noframe with
+  | none => simp [hb] at hc
+  | some c0 =>
+    simp only [hb, Option.map_some, Option.some.injEq] at hc
+    subst hc
+    have hreg := (ensureBP_some f.fn noframe c0 hb).1
+    refine ⟨rfl, hreg, ?_, ensureBP_localsOK f.fn hinv noframe c0 hb⟩
+    intro p hp
+    obtain ⟨g, hg, hd⟩ := hrefs p hp
+    exact ⟨g, by simpa [hreg] using hg, hd⟩
+
+/-- **C16 end to end, operands included (model).**  For every interleaving of non-negative allocations with
+instructions carrying stack operands (each referring to a local allocated before it), with and without BP
+clobbering, total below 2^31: the compiled function is accepted by the acceptor used on the implementation's
+printed output — every operand addresses its handed-out region, and the regions satisfy the property against
+the frame the assembler allocates for the printed TEXT line. -/
+theorem final_ok (ops : List POp) (noframe : Bool) (c : CompiledP) (args : Nat)
+    (hn : NonNeg (ops.map POp.toOp)) (hs : WellScoped 0 ops)
+    (hc : compileP ops noframe = some c) (hlt : c.frame.frame < Avo.BP.frameLimit) :
+    compile (ops.map POp.toOp) noframe = some c.frame ∧
+    acceptFinal c.frame.regions c.frame.forced (c.mems.map (fun p => ⟨p.1, p.2⟩)) (textSize c.frame.frame args) = true := by
+  unfold compileP at hc
+  have hfn := runP_fn {} ops
+  have hinv : Inv (runP {} ops).fn := by rw [hfn]; exact inv_run _ inv_init _ hn
+  have hrefs : RefsOK (runP {} ops) := refsOK_run {} refsOK_init ops hs
+  obtain ⟨_, _, haddr, _⟩ := ensureBPFn_preserves _ hinv hrefs noframe c hc
+  have hc0 : compile (ops.map POp.toOp) noframe = some c.frame := by
+    unfold compile
+    unfold ensureBPFn at hc
+    rw [hfn] at hc
+    change ensureBP (run {} (ops.map POp.toOp)) noframe = some c.frame
+    cases hb : ensureBP (run {} (List.map POp.toOp ops)) noframe with
+    | none => simp [hb] at hc
+    | some c0 => simp only [hb, Option.map_some, Option.some.injEq] at hc; subst hc; rfl
+  refine ⟨hc0, ?_⟩
+  unfold acceptFinal
+  simp only [Bool.and_eq_true, List.all_eq_true, addrOKB_iff]
+  refine ⟨?_, locals_in_text_frame _ noframe c.frame args hn hc0 hlt⟩
+  intro s hs'
+  obtain ⟨p, hp, rfl⟩ := List.mem_map.mp hs'
+  exact haddr p hp
+
+/-- Non-vacuity of `final_ok`: three locals of mixed sizes, operands on all of them, an author-written BP write
+between them, 8 argument bytes. -/
+example :
+    acceptFinal [⟨0, 3⟩, ⟨3, 0⟩, ⟨3, 16⟩] none [⟨⟨0, 1, 2⟩, 1⟩, ⟨⟨2, 8, 8⟩, 11⟩, ⟨⟨2, 0, 0⟩, 3⟩] (textSize 19 8) = true :=
+  (final_ok [.alloc 3, .instr false [⟨0, 1, 2⟩], .alloc 0, .alloc 16, .instr true [], .instr false [⟨2, 8, 8⟩, ⟨2, 0, 0⟩]] false
+    ⟨⟨[⟨0, 3⟩, ⟨3, 0⟩, ⟨3, 16⟩], none, 19⟩, [(⟨0, 1, 2⟩, 1), (⟨2, 8, 8⟩, 11), (⟨2, 0, 0⟩, 3)]⟩ 8
+    (by intro s hs; simp [allocSizes, POp.toOp] at hs; omega)
+    (by simp [WellScoped])
+    (by decide) (by decide)).2
+/-- The seeded shape: one 8-byte local, BP written, the store printed at `8(SP)` under `$8`: rejected. -/
+example : acceptFinal [⟨0, 8⟩] none [⟨⟨0, 0, 8⟩, 8⟩] "$8-8".toList = false := by decide +kernel
+example : acceptFinal [⟨0, 8⟩] none [⟨⟨0, 0, 8⟩, 0⟩] "$8-8".toList = true := by decide +kernel
+example : compileP [.alloc 8, .instr true [], .instr false [⟨0, 0, 8⟩]] false =
+    some ⟨⟨[⟨0, 8⟩], none, 8⟩, [(⟨0, 0, 8⟩, 0)]⟩ := by decide
+example : compileP [.instr true [], .alloc 0, .instr false [⟨0, 0, 0⟩]] false =
+    some ⟨⟨[⟨0, 0⟩], some ⟨0, 8⟩, 8⟩, [(⟨0, 0, 0⟩, 0)]⟩ := by decide
+
+/-! #### The measured function (assembled and disassembled) -/
+
+/-- What `accept-asm` establishes about the measured displacements, access widths, frame top and reserved
+slots (the saved-BP word and the return address as the prologue really laid them out). -/
+def MeasuredOK (regions : List Region) (seen : List Seen) (top : Int) (reserved : List Region) : Prop :=
+  (∀ s ∈ seen, AddrOK regions s) ∧
+  (∀ s ∈ seen, ∀ g, regions[s.ref.loc]? = some g → ∀ x, (⟨s.disp, s.ref.width⟩ : Region).Mem x → g.Mem x) ∧
+  (∀ r ∈ regions, Inside r top) ∧ regions.Pairwise Disjoint ∧
+  (∀ sl ∈ reserved, ∀ r ∈ regions, Disjoint r sl)
+
+theorem acceptMeasured_iff (regions : List Region) (seen : List Seen) (top : Int) (reserved : List Region) :
+    acceptMeasured regions seen top reserved = true ↔ MeasuredOK regions seen top reserved := by
+  unfold acceptMeasured MeasuredOK
+  simp only [Bool.and_eq_true, List.all_eq_true, addrOKB_iff, insideB_iff, pairwiseB_iff, disjointB_iff]
+  have hacc : ∀ s, accessInB regions s = true ↔
+      (∃ g, regions[s.ref.loc]? = some g) ∧
+      ∀ g, regions[s.ref.loc]? = some g → ∀ x, (⟨s.disp, s.ref.width⟩ : Region).Mem x → g.Mem x := by
+    intro s
+    unfold accessInB
+    cases hg : regions[s.ref.loc]? with
+    | none => simp
+    | some g =>
+      simp only [Bool.or_eq_true, Bool.and_eq_true, decide_eq_true_eq, Option.some.injEq, exists_eq', true_and,
+        forall_eq', Region.Mem]
+      constructor
+      · intro h x hx; omega
+      · intro h
+        by_cases hw : s.ref.width ≤ 0
+        · exact Or.inl hw
+        · have h1 := h s.disp (by omega)
+          have h2 := h (s.disp + s.ref.width - 1) (by omega)
+          exact Or.inr (by omega)
+  constructor
+  · rintro ⟨⟨⟨⟨a, b⟩, c⟩, d⟩, e⟩
+    exact ⟨a, fun s hs => ((hacc s).mp (b s hs)).2, c, d, e⟩
+  · rintro ⟨a, b, c, d, e⟩
+    refine ⟨⟨⟨⟨a, ?_⟩, c⟩, d⟩, e⟩
+    intro s hs
+    obtain ⟨g, hg, _⟩ := a s hs
+    exact (hacc s).mpr ⟨⟨g, hg⟩, b s hs⟩
+
+-- the measured shape of the seeded change: `$8` frame, prologue PUSHQ BP; SUBQ $8, SP → top 8, BP word at [8,16),
+-- return address at [16,24); the 8-byte store decoded at 8(SP)
+example : acceptMeasured [⟨0, 8⟩] [⟨⟨0, 0, 8⟩, 8⟩] 8 [⟨8, 8⟩, ⟨16, 8⟩] = false := by decide
+example : acceptMeasured [⟨0, 8⟩] [⟨⟨0, 0, 8⟩, 0⟩] 8 [⟨8, 8⟩, ⟨16, 8⟩] = true := by decide
+-- an access wider than the local is rejected although its address is right
+example : acceptMeasured [⟨0, 4⟩, ⟨4, 4⟩] [⟨⟨0, 0, 8⟩, 0⟩] 8 [⟨8, 8⟩] = false := by decide
+
 /-! ### Non-vacuity -/
 
 example : compile [.alloc 3, .instr false, .alloc 0, .alloc 16, .instr true] false =
